@@ -220,6 +220,8 @@ EXTOFFER = {
                  ("pmd;bogus=1,pmd", PMD + "; bogus=1, " + PMD)],
 }
 COMPRESS = [False, True]
+EXT_EXTRA = [("pmd", PMD), ("pmd;snct", PMD + "; server_no_context_takeover"),
+             ("unknown,pmd;smwb=10", "x-foo, " + PMD + "; server_max_window_bits=10"), ("pmd;cnct", PMD + "; client_no_context_takeover")]
 
 
 def make_origin(template, host):
@@ -262,7 +264,8 @@ def host_origin_pairs(tier):
     if tier == "quick":
         pairs = [("example.com", t) for t in ORIGIN_T["quick"]]
         pairs += [(None, "none"), ("EXAMPLE.com", "same"),
-                  ("example.com:8080", "same"), ("example.com:8080", "other-port"), ("example.com:8080", "no-port")]
+                  ("example.com:8080", "same"), ("example.com:8080", "other-port"), ("example.com:8080", "no-port"),
+                  ("[::1]:8080", "same"), ("[::1]:8080", "other-port"), ("[::1]", "same")]
         return pairs
     pairs = [("example.com", t) for t in ORIGIN_T["thorough"]]
     pairs += [("example.com:8080", t) for t in ("same", "other-port", "suffix-host", "no-port")]
@@ -1038,6 +1041,9 @@ class C17(Check):
             # version values that int() / float() / substring tests read as a supported version, in an otherwise valid request
             cases = itertools.chain(cases, itertools.product(ODD_VERSIONS, pairs[:1], SUBOFFER[tier][:1], POLICY[tier],
                                                              EXTOFFER[tier][:1], COMPRESS))
+            # valid permessage-deflate offers that do not mention client_max_window_bits (what most browsers send)
+            cases = itertools.chain(cases, itertools.product(VERSION[tier][:1], pairs[:1], SUBOFFER[tier][:1], POLICY[tier][:1],
+                                                             EXT_EXTRA, COMPRESS))
         for (vl, ver), (hv, ot), (sol, so), pol, (el, eo), en in cases:
             hdrs = server_headers(u, c, k, ver, hv, ot, so, eo)
             exp = server_expect(hdrs, pol, en, advertised)
